@@ -6,7 +6,40 @@ The pattern strings are obtained by evaluating the module-level constant express
 (string concatenation and %-formatting) with translate.pylite.const_expr; the final
 pattern is parsed by Python's own `re._parser` and every node is turned into a
 constructor of Verif.lib.Regex.re.  Any node kind that the Coq matcher does not model
-raises Untranslatable (fail closed)."""
+raises Untranslatable (fail closed).
+
+How the four small functions are read (decode_furl, encode_furl, convert_legacy_hint, DefaultTCP.hint_to_endpoint)
+-----------------------------------------------------------------------------------------------------------------
+They are not matched as text.  `Sym` executes the body symbolically (straight-line code, if/else, early return/raise,
+tuple assignment, single-use or multi-use locals) into a decision tree
+    do(effect, tree) | if(condition, tree, tree) | raise(exception class) | return(expression)
+and the tree must UNIFY with the tree obtained in the same way from the reference text of the function kept below
+(REFERENCE), whose holes K_... bind the constants that the Coq model takes from the source (the 32-character cut, the
+separators, the prefix).  Two bodies with the same tree compute the same function, because the executor only does
+the following, each valid for ALL inputs:
+  * locals are substituted by the expression they were assigned (any number of uses, any names): sound because only
+    PURE, TOTAL expressions are substituted -- operations on values whose type is fixed by the expression that built
+    them, not by the caller: slicing / split / lstrip / rstrip / %-formatting / comparison / membership on the str
+    results of six.ensure_str, of Match.group on a str subject and of str methods; base32.is_base32 on a str;
+    PATTERN.search/match on a str; Match.group(i) / Match.groups() on a path where the match is known to exist.
+    Every other call (six.ensure_str, int(), PATTERN.search on a parameter of unknown type, the list comprehension
+    over a parameter, an endpoint constructor) is an EFFECT: it is kept as a do-node, in program order, on its path,
+    so nothing that can raise or observe is reordered, duplicated or dropped.
+  * `if X: A else: B ; rest`  ==  `if X: A; rest  else: B; rest` (continuation duplicated into both branches); this
+    makes if/else, guard-with-early-raise and guard-with-early-return the same tree.
+  * a test on a value m = PATTERN.search(..)/match(..) of a module-level re.compile pattern: `if m`, `if not m`,
+    `m is None`, `m is not None` all become the condition matched(m) (branches swapped for the negative forms).
+    Argument: Pattern.search/match return None or an re.Match; re.Match defines neither __bool__ nor __len__, so it
+    is always true.  The type comes from the defining expression, whatever the function's arguments are.
+  * `a, b, c = m.groups()` == `a = m.group(1); b = m.group(2); c = m.group(3)` when the pattern has exactly that many
+    groups (known from the parsed pattern): both give the group's text or None, and both are pure.
+  * a call h(a1..an) of a plain function h of the same module (defined once at module level, never rebound, imported
+    over or declared global anywhere, no decorators / defaults / star-args) whose body is assignments followed by one
+    return is replaced by that body with the parameters bound to the argument VALUES (beta-reduction: the arguments
+    were already evaluated left to right, their effects recorded; the body's effects follow in order).
+  * the message argument of a raised exception is evaluated (so effects in it would be kept) but not compared.
+Not accepted (fails closed as before): loops, try, with, augmented assignment, attribute stores, calls the executor
+does not know, a decorated function, delegation to a helper that normalize.py cannot inline."""
 import ast, sys
 from translate import pylite as P
 
@@ -189,6 +222,18 @@ class Rx:
             U("group count mismatch in %r" % text)
         return anchored, body, self.ngroups
 
+    def mandatory(self, nodes):
+        """groups that take part in EVERY match (not under an alternative or a repeat that may be skipped)"""
+        out = set()
+        for op, av in nodes:
+            if op is sre_c.SUBPATTERN:
+                if av[0] is not None:
+                    out.add(av[0])
+                out |= self.mandatory(list(av[3]))
+            elif op is sre_c.MAX_REPEAT and av[0] >= 1:
+                out |= self.mandatory(list(av[2]))
+        return out
+
 
 def compiled_pattern(mod, env, name):
     """NAME = re.compile(<const string expr>) at module level -> the pattern string"""
@@ -227,6 +272,348 @@ def need(fn, frags, where):
             U("%s no longer contains: %s" % (where, f))
 
 
+# ---------------------------------------------------------------- symbolic execution of the small functions
+
+class Sym:
+    """see the module docstring.  Expressions are nested tuples; kinds: 'str', 'optmatch', 'liststr', 'int', 'bool',
+    'tuple', 'obj', 'param' (unknown type), 'none'."""
+
+    def __init__(self, fname, patterns, holes=False, module=None):
+        self.fname = fname
+        self.patterns = patterns          # pattern name -> (number of groups, groups that take part in every match)
+        self.holes = holes
+        self.module = module              # for calls to straight-line helper functions of the same module
+
+    def helper(self, name):
+        """a plain module-level function `name` (defined once, never rebound, no decorators / defaults / star-args)"""
+        if self.module is None:
+            return None
+        defs = [st for st in self.module.body if isinstance(st, (ast.FunctionDef, ast.AsyncFunctionDef, ast.ClassDef)) and st.name == name]
+        rebound = [n for n in ast.walk(self.module) if isinstance(n, ast.Name) and n.id == name and isinstance(n.ctx, (ast.Store, ast.Del))]
+        rebound += [n for n in ast.walk(self.module) if isinstance(n, (ast.Global, ast.Nonlocal)) and name in n.names]
+        rebound += [n for n in ast.walk(self.module) if isinstance(n, (ast.Import, ast.ImportFrom))
+                    and any((a.asname or a.name.split(".")[0]) == name for a in n.names)]
+        if len(defs) != 1 or rebound or not isinstance(defs[0], ast.FunctionDef):
+            return None
+        d = defs[0]
+        if d.decorator_list or d.args.vararg or d.args.kwarg or d.args.kwonlyargs or d.args.defaults or d.args.posonlyargs:
+            return None
+        return d
+
+    def inline(self, d, args, env, eff, facts, depth=0):
+        """value of helper d applied to already evaluated arguments: its body must be assignments followed by one
+        return (beta-reduction: the arguments were evaluated first, left to right, as Python does; the body's
+        effects follow, in order, on the caller's path)"""
+        if len(args) != len(d.args.args) or depth > 3:
+            self.bail(d.name, "helper arity / nesting")
+        henv = {a.arg: v for a, v in zip(d.args.args, args)}
+        for k2 in list(env):
+            if k2.startswith("__"):
+                henv[k2] = env[k2]
+        result = None
+        body = [st for st in d.body if not (isinstance(st, ast.Expr) and isinstance(st.value, ast.Constant))]
+        for i, st in enumerate(body):
+            if isinstance(st, ast.Assign) and len(st.targets) == 1 and i < len(body) - 1:
+                k, t = self.ev(st.value, henv, eff, facts)
+                tgt = st.targets[0]
+                if isinstance(tgt, ast.Name):
+                    henv[tgt.id] = (k, t)
+                elif isinstance(tgt, ast.Tuple) and all(isinstance(x, ast.Name) for x in tgt.elts) and k == "tuple" \
+                        and len(t[1]) == len(tgt.elts):
+                    for x, item in zip(tgt.elts, t[1]):
+                        henv[x.id] = item
+                else:
+                    self.bail(st, "assignment target in helper")
+            elif isinstance(st, ast.Return) and st.value is not None and i == len(body) - 1:
+                result = self.ev(st.value, henv, eff, facts)
+            else:
+                self.bail(st, "helper %s is not assignments followed by one return" % d.name)
+        for k2 in henv:
+            if k2.startswith("__"):
+                env[k2] = henv[k2]
+        if result is None:
+            self.bail(d.name, "helper without return")
+        return result
+
+    def bail(self, node, why):
+        U("%s: %s: %s" % (self.fname, why, ast.unparse(node) if isinstance(node, ast.AST) else node))
+
+    def fresh(self, eff, text, env):
+        env["__n"] = env.get("__n", 0) + 1                    # path-local numbering (env is copied at every branch)
+        sym = ("eff%d" % env["__n"],)
+        eff.append((sym[0],) + text)
+        if text[0] == "apply":
+            env["__pat:" + sym[0]] = text[1]
+        return sym
+
+    # -- expressions: -> (kind, term); effects appended to `eff` in evaluation order
+    def ev(self, e, env, eff, facts):
+        if isinstance(e, ast.Constant):
+            v = e.value
+            if isinstance(v, str):
+                return "str", ("lit", v)
+            if isinstance(v, bool) or v is None:
+                return ("none" if v is None else "bool"), ("lit", v)
+            if isinstance(v, int):
+                return "int", ("lit", v)
+            self.bail(e, "constant")
+        if isinstance(e, ast.Name):
+            if e.id in env:
+                return env[e.id]
+            if self.holes and e.id.startswith("K_"):
+                return "hole", ("hole", e.id)
+            if e.id == "reactor":
+                return "obj", ("global", "reactor")
+            self.bail(e, "unbound name")
+        if isinstance(e, ast.Tuple):
+            items = [self.ev(x, env, eff, facts) for x in e.elts]
+            return "tuple", ("tuple", items)
+        if isinstance(e, ast.List) and not e.elts:
+            return "liststr", ("emptylist",)
+        if isinstance(e, ast.List) and all(isinstance(x, ast.Constant) and isinstance(x.value, str) for x in e.elts):
+            return "liststr", ("listlit", tuple(x.value for x in e.elts))
+        if isinstance(e, ast.Subscript) and isinstance(e.slice, ast.Slice) and e.slice.lower is None and e.slice.step is None \
+                and e.slice.upper is not None:
+            k, t = self.ev(e.value, env, eff, facts)
+            ku, tu = self.ev(e.slice.upper, env, eff, facts)
+            if k != "str" or ku not in ("int", "hole") or (ku == "int" and (tu[0] != "lit" or tu[1] < 0)):
+                self.bail(e, "slice of a non-str / by a non-literal")
+            return "str", ("prefix", t, tu)
+        if isinstance(e, ast.BinOp) and isinstance(e.op, ast.Add):
+            kl, tl = self.ev(e.left, env, eff, facts)
+            kr, tr = self.ev(e.right, env, eff, facts)
+            if kl not in ("str", "hole") or kr not in ("str", "hole"):
+                self.bail(e, "+ on non-str")
+            flat = (list(tl[1]) if tl[0] == "concat" else [tl]) + (list(tr[1]) if tr[0] == "concat" else [tr])
+            return "str", ("concat", tuple(flat))
+        if isinstance(e, ast.BinOp) and isinstance(e.op, ast.Mod):
+            kl, tl = self.ev(e.left, env, eff, facts)
+            kr, tr = self.ev(e.right, env, eff, facts)
+            if kl != "str" or tl[0] != "lit":
+                self.bail(e, "% with a non-literal format")
+            args = tr[1] if kr == "tuple" else [(kr, tr)]
+            if any(k not in ("str", "int") for k, _ in args):
+                self.bail(e, "%-formatting of a value that is not a str / int")
+            return "str", ("format", tl[1], tuple(t for _, t in args))
+        if isinstance(e, ast.ListComp):
+            if ast.unparse(e.elt) == "six.ensure_str(%s)" % ast.unparse(e.generators[0].target) and len(e.generators) == 1 \
+                    and not e.generators[0].ifs and isinstance(e.generators[0].target, ast.Name):
+                k, t = self.ev(e.generators[0].iter, env, eff, facts)
+                return "liststr", self.fresh(eff, ("map-ensure_str", t), env)
+            self.bail(e, "list comprehension")
+        if isinstance(e, ast.Call):
+            return self.call(e, env, eff, facts)
+        self.bail(e, "expression")
+
+    def call(self, e, env, eff, facts):
+        if e.keywords:
+            self.bail(e, "keyword arguments")
+        f = e.func
+        fu = ast.unparse(f)
+        on_pattern = isinstance(f, ast.Attribute) and isinstance(f.value, ast.Name) and f.value.id in self.patterns \
+            and f.value.id not in env
+        on_literal = isinstance(f, ast.Attribute) and (
+            (isinstance(f.value, ast.Constant) and isinstance(f.value.value, str))
+            or (self.holes and isinstance(f.value, ast.Name) and f.value.id.startswith("K_")))
+        if fu in ("six.ensure_str", "int", "base32.is_base32", "HostnameEndpoint") or on_pattern or on_literal:
+            args = [self.ev(a, env, eff, facts) for a in e.args]
+            if fu == "six.ensure_str" and len(args) == 1:
+                return "str", self.fresh(eff, ("ensure_str", args[0][1]), env)
+            if fu == "int" and len(args) == 1 and args[0][0] in ("str", "optstr"):
+                return "int", self.fresh(eff, ("int", args[0][1]), env)
+            if fu == "base32.is_base32" and len(args) == 1 and args[0][0] == "str":
+                return "bool", ("is_base32", args[0][1])
+            if fu == "HostnameEndpoint":
+                return "obj", self.fresh(eff, ("HostnameEndpoint", tuple(t for _, t in args)), env)
+            if on_pattern and f.attr in ("search", "match") and len(args) == 1:
+                term = ("apply", f.value.id, f.attr, args[0][1])
+                if args[0][0] == "str":
+                    return "optmatch", term
+                return "optmatch", self.fresh(eff, term, env)          # argument of unknown type: may raise
+            if on_literal and f.attr == "join" and len(args) == 1 and args[0][0] == "liststr":
+                sep = ("lit", f.value.value) if isinstance(f.value, ast.Constant) else ("hole", f.value.id)
+                return "str", ("join", sep, args[0][1])
+            self.bail(e, "call")
+        if isinstance(f, ast.Name) and f.id not in env and self.helper(f.id) is not None:
+            args = [self.ev(a, env, eff, facts) for a in e.args]
+            return self.inline(self.helper(f.id), args, env, eff, facts)
+        if isinstance(f, ast.Attribute):
+            ko, to = self.ev(f.value, env, eff, facts)                 # Python evaluates the object, then the arguments
+            args = [self.ev(a, env, eff, facts) for a in e.args]
+            if ko == "optmatch":
+                if ("matched", to) not in facts:
+                    self.bail(e, "method of a match object on a path where the match is not known to exist")
+                pat = to[1] if to[0] == "apply" else env.get("__pat:" + to[0])
+                ng, mandatory = self.patterns[pat]
+                if f.attr == "group" and len(args) == 1 and args[0][1][0] == "lit" and isinstance(args[0][1][1], int) \
+                        and 0 < args[0][1][1] <= ng:
+                    i = args[0][1][1]
+                    return ("str" if i in mandatory else "optstr"), ("group", to, i)
+                if f.attr == "groups" and not args:
+                    return "tuple", ("tuple", [(("str" if i in mandatory else "optstr"), ("group", to, i)) for i in range(1, ng + 1)])
+                self.bail(e, "match method")
+            if ko == "str" and f.attr == "split" and len(args) == 1 and args[0][1][0] in ("lit", "hole") \
+                    and (args[0][1][0] == "hole" or isinstance(args[0][1][1], str)):
+                return "liststr", ("split", to, args[0][1])
+            if ko == "str" and f.attr in ("lstrip", "rstrip") and len(args) == 1 and args[0][0] == "str" and args[0][1][0] == "lit":
+                return "str", (f.attr, to, args[0][1])
+        self.bail(e, "call")
+
+    # -- conditions: -> (positive condition term, polarity)
+    def cond(self, e, env, eff, facts):
+        if isinstance(e, ast.UnaryOp) and isinstance(e.op, ast.Not):
+            c, pol = self.cond(e.operand, env, eff, facts)
+            return c, not pol
+        if isinstance(e, ast.Compare) and len(e.ops) == 1:
+            op = e.ops[0]
+            kl, tl = self.ev(e.left, env, eff, facts)
+            kr, tr = self.ev(e.comparators[0], env, eff, facts)
+            if isinstance(op, (ast.Is, ast.IsNot)) and kl == "optmatch" and kr == "none":
+                return ("matched", tl), isinstance(op, ast.IsNot)
+            if isinstance(op, (ast.Eq, ast.NotEq)) and kl == "liststr" and kr == "liststr":
+                return ("eq", tl, tr), isinstance(op, ast.Eq)
+            if isinstance(op, (ast.In, ast.NotIn)) and kl == "str" and kr == "liststr":
+                return ("in", tl, tr), isinstance(op, ast.In)
+            self.bail(e, "comparison")
+        k, t = self.ev(e, env, eff, facts)
+        if k == "optmatch":
+            return ("matched", t), True
+        if k == "bool":
+            return t, True
+        self.bail(e, "truth value of a %s" % k)
+
+    # -- statements
+    def block(self, stmts, env, facts):
+        if not stmts:
+            return ("return", ("lit", None))
+        st, rest = stmts[0], stmts[1:]
+        eff = []
+
+        def wrap(tree):
+            for x in reversed(eff):
+                tree = ("do", x, tree)
+            return tree
+        if isinstance(st, ast.Expr) and isinstance(st.value, ast.Constant) and isinstance(st.value.value, str):
+            return self.block(rest, env, facts)
+        if isinstance(st, ast.Pass):
+            return self.block(rest, env, facts)
+        if isinstance(st, ast.Assign) and len(st.targets) == 1:
+            k, t = self.ev(st.value, env, eff, facts)
+            env2 = dict(env)
+            tgt = st.targets[0]
+            if isinstance(tgt, ast.Name):
+                env2[tgt.id] = (k, t)
+            elif isinstance(tgt, ast.Tuple) and all(isinstance(x, ast.Name) for x in tgt.elts) and k == "tuple" \
+                    and len(t[1]) == len(tgt.elts):
+                for x, item in zip(tgt.elts, t[1]):
+                    env2[x.id] = item
+            else:
+                self.bail(st, "assignment target")
+            return wrap(self.block(rest, env2, facts))
+        if isinstance(st, ast.If):
+            c, pol = self.cond(st.test, env, eff, facts)
+            yes, no = (st.body, st.orelse) if pol else (st.orelse, st.body)
+            return wrap(("if", c, self.block(list(yes) + rest, dict(env), facts | {c}),
+                         self.block(list(no) + rest, dict(env), facts)))
+        if isinstance(st, ast.Return):
+            if st.value is None:
+                return ("return", ("lit", None))
+            k, t = self.ev(st.value, env, eff, facts)
+            return wrap(("return", self.strip(t)))
+        if isinstance(st, ast.Raise) and st.exc is not None:
+            exc = st.exc
+            if isinstance(exc, ast.Call):
+                for a in exc.args:
+                    self.ev(a, env, eff, facts)
+                exc = exc.func
+            return wrap(("raise", ast.unparse(exc)))
+        self.bail(st, "statement")
+
+    def strip(self, t):
+        """drop the kind tags of tuple items"""
+        if isinstance(t, tuple) and t and t[0] == "tuple":
+            return ("tuple", tuple(self.strip(x[1]) for x in t[1]))
+        return t
+
+    def run(self, fdef):
+        if fdef.decorator_list or fdef.args.vararg or fdef.args.kwarg or fdef.args.kwonlyargs or fdef.args.defaults:
+            self.bail(fdef.name, "decorated / star-args / defaults")
+        env = {a.arg: ("param", ("param", i)) for i, a in enumerate(x for x in fdef.args.args if x.arg != "self")}
+        return self.block(list(fdef.body), env, frozenset())
+
+
+def unify(ref, cur, binds, where):
+    """ref may contain ('hole', name): it matches a literal and binds it (consistently)"""
+    if isinstance(ref, tuple) and len(ref) == 2 and ref[0] == "hole":
+        if not (isinstance(cur, tuple) and len(cur) == 2 and cur[0] == "lit"):
+            U("%s: a literal was expected for %s, found %r" % (where, ref[1], cur))
+        if binds.setdefault(ref[1], cur[1]) != cur[1]:
+            U("%s: %s is used with two different values" % (where, ref[1]))
+        return
+    if isinstance(ref, (tuple, list)) and isinstance(cur, (tuple, list)) and len(ref) == len(cur):
+        for a, b in zip(ref, cur):
+            unify(a, b, binds, where)
+        return
+    if ref != cur:
+        U("%s no longer computes what the model assumes: expected %r, found %r" % (where, ref, cur))
+
+
+REFERENCE = {
+    "decode_furl": '''
+def decode_furl(furl):
+    furl = six.ensure_str(furl)
+    mo_auth_furl = AUTH_STURDYREF_RE.METHOD(furl)
+    if mo_auth_furl:
+        tubID_s = mo_auth_furl.group(1)
+        tubID = tubID_s[:K_TUBID_CUT]
+        if not base32.is_base32(tubID):
+            raise BadFURLError("x")
+        hints = mo_auth_furl.group(2)
+        location_hints = hints.split(K_HINT_SEP)
+        if location_hints == [""]:
+            location_hints = []
+        if "" in location_hints:
+            raise BadFURLError("x")
+        name = mo_auth_furl.group(3)
+    else:
+        raise ValueError("x")
+    return (tubID, location_hints, name)
+''',
+    "encode_furl": '''
+def encode_furl(tubID, location_hints, name):
+    location_hints_s = K_ENC_SEP.join([six.ensure_str(hint) for hint in location_hints])
+    return K_ENC_PREFIX + six.ensure_str(tubID) + K_ENC_AT + location_hints_s + K_ENC_SLASH + six.ensure_str(name)
+''',
+    "convert_legacy_hint": '''
+def convert_legacy_hint(location):
+    mo = OLD_STYLE_HINT_RE.METHOD(location)
+    if mo:
+        host, port = mo.group(1), int(mo.group(2))
+        return "tcp:%s:%d" % (host, port)
+    return location
+''',
+    "DefaultTCP.hint_to_endpoint": '''
+def hint_to_endpoint(self, hint, reactor, update_status):
+    mo = NEW_STYLE_HINT_RE.METHOD(hint)
+    if not mo:
+        raise InvalidHintError("unrecognized TCP hint")
+    host, port = mo.group(1), int(mo.group(2))
+    host = host.lstrip("[").rstrip("]")
+    return HostnameEndpoint(reactor, host, port), host
+''',
+}
+
+
+def same_function(fdef, key, method, patterns, where, module=None):
+    """the body of fdef computes what REFERENCE[key] computes; -> the literals bound to the K_ holes"""
+    ref_src = REFERENCE[key].replace("METHOD", method)
+    ref = Sym("reference " + key, patterns, holes=True).run(ast.parse(ref_src).body[0])
+    cur = Sym(where, patterns, module=module).run(fdef)
+    binds = {}
+    unify(ref, cur, binds, where)
+    return binds
+
+
 def codes(s):
     return "[" + "; ".join(str(ord(c)) for c in s) + "]"
 
@@ -251,6 +638,7 @@ def generate():
         out.append("Definition %s : pattern := {| p_anch := %s; p_body := %s; p_groups := %d%%nat |}."
                    % (cname, "true" if anchored else "false", body, ng))
         out.append("Definition %s_method : method := %s." % (cname, meth))
+        return ng, rx.mandatory(list(sre_parse.parse(text, 0)))
 
     # ---- furl.py
     fm = P.load("furl.py")
@@ -259,62 +647,28 @@ def generate():
     for fname in ("decode_furl", "encode_furl"):
         if P.find_def(fm, fname).decorator_list:
             U("furl.%s is decorated (cached / wrapped): its body is no longer what runs" % fname)
-    emit_pattern("AUTH_STURDYREF_RE", compiled_pattern(fm, fenv, "AUTH_STURDYREF_RE"), uses(dec, "AUTH_STURDYREF_RE"))
-    # shape facts of decode_furl
-    need(dec, ["furl = six.ensure_str(furl)",
-               "if mo_auth_furl:",
-               "tubID_s = mo_auth_furl.group(1)",
-               "if not base32.is_base32(tubID):\n        raise BadFURLError(",
-               "hints = mo_auth_furl.group(2)",
-               "if location_hints == ['']:\n        location_hints = []",
-               "if '' in location_hints:\n        raise BadFURLError(",
-               "name = mo_auth_furl.group(3)",
-               "else:\n    raise ValueError(",
-               "return (tubID, location_hints, name)"], "decode_furl")
-    cut = [n for n in ast.walk(dec) if isinstance(n, ast.Assign) and ast.unparse(n.targets[0]) == "tubID"]
-    if len(cut) != 1 or not (isinstance(cut[0].value, ast.Subscript) and ast.unparse(cut[0].value.value) == "tubID_s"
-                             and isinstance(cut[0].value.slice, ast.Slice) and cut[0].value.slice.lower is None
-                             and cut[0].value.slice.step is None
-                             and isinstance(cut[0].value.slice.upper, ast.Constant)
-                             and isinstance(cut[0].value.slice.upper.value, int)
-                             and cut[0].value.slice.upper.value >= 0):
-        U("decode_furl: tubID is no longer tubID_s[:N]")
-    out.append("Definition TUBID_CUT : nat := %d%%nat." % cut[0].value.slice.upper.value)
-    sp = [n for n in ast.walk(dec) if isinstance(n, ast.Assign) and ast.unparse(n.targets[0]) == "location_hints"
-          and isinstance(n.value, ast.Call)]
-    if len(sp) != 1 or ast.unparse(sp[0].value.func) != "hints.split" or len(sp[0].value.args) != 1 \
-            or not isinstance(sp[0].value.args[0], ast.Constant) or not isinstance(sp[0].value.args[0].value, str) \
-            or len(sp[0].value.args[0].value) != 1:
-        U("decode_furl: location_hints is no longer hints.split(<one char>)")
-    out.append("Definition HINT_SEP : Z := %d." % ord(sp[0].value.args[0].value))
+    meth = uses(dec, "AUTH_STURDYREF_RE")
+    pats = {"AUTH_STURDYREF_RE": emit_pattern("AUTH_STURDYREF_RE", compiled_pattern(fm, fenv, "AUTH_STURDYREF_RE"), meth)}
+    pymeth = {"MSearch": "search", "MMatch": "match"}
+    # decode_furl / encode_furl compute what the model assumes (symbolic execution, see the module docstring)
+    k = same_function(dec, "decode_furl", pymeth[meth], pats, "decode_furl", fm)
+    if not isinstance(k.get("K_TUBID_CUT"), int) or isinstance(k["K_TUBID_CUT"], bool) or k["K_TUBID_CUT"] < 0:
+        U("decode_furl: the tub id cut is not a non-negative integer literal")
+    if not isinstance(k.get("K_HINT_SEP"), str) or len(k["K_HINT_SEP"]) != 1:
+        U("decode_furl: hints are not split at a one-character string")
+    out.append("Definition TUBID_CUT : nat := %d%%nat." % k["K_TUBID_CUT"])
+    out.append("Definition HINT_SEP : Z := %d." % ord(k["K_HINT_SEP"]))
     enc = P.find_def(fm, "encode_furl")
-    ret = [n for n in ast.walk(enc) if isinstance(n, ast.Return)]
-    joins = [n for n in ast.walk(enc) if isinstance(n, ast.Assign) and ast.unparse(n.targets[0]) == "location_hints_s"]
-    if len(ret) != 1 or len(joins) != 1:
-        U("encode_furl changed shape")
-    j = joins[0].value
-    if not (isinstance(j, ast.Call) and isinstance(j.func, ast.Attribute) and j.func.attr == "join"
-            and isinstance(j.func.value, ast.Constant) and isinstance(j.func.value.value, str)
-            and len(j.func.value.value) == 1
-            and ast.unparse(j.args[0]) == "[six.ensure_str(hint) for hint in location_hints]"):
-        U("encode_furl: hints are no longer joined by a one-character string")
-    out.append("Definition ENC_SEP : Z := %d." % ord(j.func.value.value))
-    r = ret[0].value
-    # 'pb://' + ensure_str(tubID) + '@' + location_hints_s + '/' + ensure_str(name)
-    terms = []
-    while isinstance(r, ast.BinOp) and isinstance(r.op, ast.Add):
-        terms.append(r.right)
-        r = r.left
-    terms.append(r)
-    terms.reverse()
-    if len(terms) != 6 or [type(t) for t in (terms[0], terms[2], terms[4])] != [ast.Constant] * 3 \
-            or ast.unparse(terms[1]) != "six.ensure_str(tubID)" or ast.unparse(terms[3]) != "location_hints_s" \
-            or ast.unparse(terms[5]) != "six.ensure_str(name)" \
-            or not all(isinstance(terms[i].value, str) for i in (0, 2, 4)):
-        U("encode_furl: return expression is no longer prefix + tubID + sep + hints + sep + name")
-    out.append("Definition ENC_PREFIX : list Z := %s." % codes(terms[0].value))
-    out.append("Definition ENC_AT : list Z := %s." % codes(terms[2].value))
-    out.append("Definition ENC_SLASH : list Z := %s." % codes(terms[4].value))
+    k = same_function(enc, "encode_furl", "search", pats, "encode_furl", fm)
+    if not isinstance(k.get("K_ENC_SEP"), str) or len(k["K_ENC_SEP"]) != 1:
+        U("encode_furl: hints are not joined by a one-character string")
+    for name in ("K_ENC_PREFIX", "K_ENC_AT", "K_ENC_SLASH"):
+        if not isinstance(k.get(name), str):
+            U("encode_furl: %s is not a string literal" % name)
+    out.append("Definition ENC_SEP : Z := %d." % ord(k["K_ENC_SEP"]))
+    out.append("Definition ENC_PREFIX : list Z := %s." % codes(k["K_ENC_PREFIX"]))
+    out.append("Definition ENC_AT : list Z := %s." % codes(k["K_ENC_AT"]))
+    out.append("Definition ENC_SLASH : list Z := %s." % codes(k["K_ENC_SLASH"]))
 
     # ---- base32.py
     bm = P.load("base32.py")
@@ -376,15 +730,13 @@ def generate():
     tm = P.load("connections/tcp.py")
     tenv = P.module_consts(tm)
     clh = P.find_def(tm, "convert_legacy_hint")
-    emit_pattern("OLD_STYLE_HINT_RE", compiled_pattern(tm, tenv, "OLD_STYLE_HINT_RE"), uses(clh, "OLD_STYLE_HINT_RE"))
-    need(clh, ["if mo:\n        (host, port) = (mo.group(1), int(mo.group(2)))\n        return 'tcp:%s:%d' % (host, port)\n    return location"],
-         "convert_legacy_hint")
+    meth = uses(clh, "OLD_STYLE_HINT_RE")
+    tp = {"OLD_STYLE_HINT_RE": emit_pattern("OLD_STYLE_HINT_RE", compiled_pattern(tm, tenv, "OLD_STYLE_HINT_RE"), meth)}
+    same_function(clh, "convert_legacy_hint", pymeth[meth], tp, "convert_legacy_hint", tm)
     h2e = P.find_def(tm, "DefaultTCP.hint_to_endpoint")
-    emit_pattern("NEW_STYLE_HINT_RE", compiled_pattern(tm, tenv, "NEW_STYLE_HINT_RE"), uses(h2e, "NEW_STYLE_HINT_RE"))
-    need(h2e, ["if not mo:\n        raise InvalidHintError(",
-               "(host, port) = (mo.group(1), int(mo.group(2)))",
-               "host = host.lstrip('[').rstrip(']')",
-               "return (HostnameEndpoint(reactor, host, port), host)"], "DefaultTCP.hint_to_endpoint")
+    meth = uses(h2e, "NEW_STYLE_HINT_RE")
+    tp = {"NEW_STYLE_HINT_RE": emit_pattern("NEW_STYLE_HINT_RE", compiled_pattern(tm, tenv, "NEW_STYLE_HINT_RE"), meth)}
+    same_function(h2e, "DefaultTCP.hint_to_endpoint", pymeth[meth], tp, "DefaultTCP.hint_to_endpoint", tm)
 
     # ---- connections/tor.py (imports the two building blocks from .tcp)
     om = P.load("connections/tor.py")
